@@ -76,7 +76,11 @@ def realise(lay, pattern):
         par = sname
         vnow = abs(volt[sname])
         last_switchable = None
-        for j, kind in enumerate(inp["chain"]):
+        chain_ = list(inp["chain"])
+        force_starved = bool(lay.get("starve_first")) and i == 0
+        if force_starved:
+            chain_ = chain_[:-1] + ["LinReg"]  # the first (highest-priority) input ends in a starved regulator
+        for j, kind in enumerate(chain_):
             n = "I%d_%d" % (i, j)
             starved = False
             if kind == "RLoss":
@@ -87,6 +91,8 @@ def realise(lay, pattern):
                 last_switchable = n
             elif kind == "LinReg":
                 r_ = rng.random()
+                if force_starved and j == len(chain_) - 1:
+                    r_ = 0.0
                 if r_ < 0.12:
                     # a regulator whose dropout exceeds its input: it is "on" but delivers exactly 0 V - a DEAD input
                     vd = G.sig(vnow * rng.uniform(1.05, 1.6))
@@ -185,6 +191,9 @@ def gen(rng, i, tier):
         # every sixth layout: NOTHING is connected to the mux output (a mux that is a leaf still selects its input,
         # draws its ground current from it and names it as parent / rail-in)
         lay["leaf_mux"] = _state["layouts"] % 6 == 5
+        # every fifth layout with two or more inputs: the FIRST input is a regulator whose dropout exceeds its supply
+        # ("on", but delivering exactly 0 V) - the mux must run from a later input
+        lay["starve_first"] = _state["layouts"] % 5 == 1 and lay["k"] >= 2
         pats = [list(p) for p in itertools.product([1, 0], repeat=lay["k"])]
         for pat in pats:
             case = {"layout": lay, "pattern": pat}
